@@ -166,7 +166,7 @@ func c12Sample(rng *rand.Rand, n int) []string {
 // C12 — the shim answers every call and survives any call order.
 func C12(r *core.Run) {
 	r.Level = "exploration"
-	r.SetRule("websockets.Proxy driven in-process (race-built worker with the verif hooks, agent's GODEBUG defaults, real gorilla backend). (i) sequential histories over the 18-symbol alphabet {open: valid|malformed URL|upgrade refused; data: valid|unknown|closed|malformed JSON|wrong msg type; poll/close: valid|unknown|closed|malformed; backend-send; backend-close}: bounded-exhaustive: every history up to length 4 that a static session model enables (thorough: plus sampled histories of length 5-7), each followed by a wind-down and a liveness probe on the same handler; (ii) concurrent pairs data‖close, close‖close, poll‖close, data‖backend-close, poll‖backend-close, open‖poll(guessed id) under hook schedules that park one goroutine at a hook until the other has passed a second point (2 s safety timeout), repeated; (iii) unforced stress: 8-16 goroutines issuing data/poll/close on one session while the backend talks and then client or backend closes; (iv) one idle poll that must time out by itself; (v) bounded-exhaustive mixed-ID data batches: every composition up to length 3 (thorough 4) of entries naming {open session A, open session B, session closed by the client, session closed by the backend and reported by a poll, unknown id}, judged for the 400 rule, for routing (no message on a backend connection its entry did not name) and, when all entries are valid, delivery; (vii) body alphabet, bounded-exhaustive: every endpoint {open,data,poll,close} x every odd body {null, padded null, true, false, numbers, bare strings, [], {}, [null], [[]], [{}], ids of wrong JSON type, wrong key case, trailing data, deep arrays/objects (100 and 20000 levels), 1 MiB strings, invalid UTF-8, BOM, empty, non-JSON} x {no session, one open, one open and one closed}: answered without panic, 400 when no usable session id is named, bystander session unharmed; (vi) a push-only backend that never reads from the websocket (no close handshake is ever answered): every script up to length 3 over {data, poll, wait until more is pushed than the shim queues} followed by close, after which the backend must see the agent tear the connection down. class = history | pair/schedule | stress shape")
+	r.SetRule("websockets.Proxy driven in-process (race-built worker with the verif hooks, agent's GODEBUG defaults, real gorilla backend). (i) sequential histories over the 18-symbol alphabet {open: valid|malformed URL|upgrade refused; data: valid|unknown|closed|malformed JSON|wrong msg type; poll/close: valid|unknown|closed|malformed; backend-send; backend-close}: bounded-exhaustive: every history up to length 4 that a static session model enables (thorough: plus sampled histories of length 5-7), each followed by a wind-down and a liveness probe on the same handler; (ii) concurrent pairs data‖close, close‖close, poll‖close, data‖backend-close, poll‖backend-close, open‖poll(guessed id) under hook schedules that park one goroutine at a hook until the other has passed a second point (2 s safety timeout), repeated; (iii) unforced stress: 8-16 goroutines issuing data/poll/close on one session while the backend talks and then client or backend closes; (iv) one idle poll that must time out by itself; (v) bounded-exhaustive mixed-ID data batches: every composition up to length 3 (thorough 4) of entries naming {open session A, open session B, session closed by the client, session closed by the backend and reported by a poll, unknown id}, judged for the 400 rule, for routing (no message on a backend connection its entry did not name) and, when all entries are valid, delivery; (vii) body alphabet, bounded-exhaustive: every endpoint {open,data,poll,close} x every odd body {null, padded null, true, false, numbers, bare strings, [], {}, [null], [[]], [{}], ids of wrong JSON type, wrong key case, trailing data, deep arrays/objects (100 and 20000 levels), 1 MiB strings, invalid UTF-8, BOM, empty, non-JSON} x {no session, one open, one open and one closed}: answered without panic, 400 when no usable session id is named, bystander session unharmed; (viii) a hung backend that is finally dropped: a 12 MiB message parks the writer goroutine in its TCP write, 10 (or fewer) small data calls fill the client queue, close and/or data are issued without waiting, then the backend resets the connection - every call must be answered within its bound counted from the drop; (vi) a push-only backend that never reads from the websocket (no close handshake is ever answered): every script up to length 3 over {data, poll, wait until more is pushed than the shim queues} followed by close, after which the backend must see the agent tear the connection down. class = history | pair/schedule | stress shape")
 	r.Assume("a session counts as closed once a close answered 200 or a poll answered 400 for it; between a backend-initiated close and that poll, data may answer 200 or 400; complete delivery after a backend close is only demanded when no client data/close call on that session intervened")
 	bin := r.MustBuild(r.BuildWorker())
 	godebug := "GODEBUG=" + shimGodebug(r)
@@ -267,8 +267,19 @@ func C12(r *core.Run) {
 			}
 		}
 	}
+	// hung backend that is finally dropped (B = 12 MiB message parks the writer, sN = N small data
+	// calls, c/d = close/data issued without waiting, X = the backend drops the connection)
+	var stall []c12Case
+	for i, sc := range [][]string{
+		{"B", "s10", "c", "X"}, {"B", "s10", "d", "X"}, {"B", "s10", "c", "d", "X"}, {"B", "s10", "d", "c", "X"},
+		{"B", "s10", "X", "c"}, {"B", "s10", "X", "d", "c"}, {"B", "s9", "c", "X"}, {"B", "s3", "c", "d", "X"}, {"B", "c", "X"}, {"B", "X", "d", "c"},
+	} {
+		for rep := 0; rep < r.Pick(1, 6); rep++ {
+			stall = append(stall, c12Case{ID: fmt.Sprintf("z%d-%d", i, rep), Kind: "stall", Ops: sc, Rep: rep})
+		}
+	}
 	all := map[string]c12Case{}
-	for _, l := range [][]c12Case{hist, forced, stress, batch, noread, bodies} {
+	for _, l := range [][]c12Case{hist, forced, stress, batch, noread, bodies, stall} {
 		for _, c := range l {
 			all[c.ID] = c
 		}
@@ -317,7 +328,7 @@ func C12(r *core.Run) {
 	}
 	if r.OnlyCase >= 0 {
 		// replay: one case of the concatenated list hist, forced, stress
-		cat := append(append(append(append(append(append([]c12Case{}, hist...), forced...), stress...), batch...), noread...), bodies...)
+		cat := append(append(append(append(append(append([]c12Case{}, hist...), forced...), stress...), batch...), noread...), bodies...), stall...)
 		if r.OnlyCase < len(cat) {
 			launch(cat[r.OnlyCase:r.OnlyCase+1], 1, 1)
 		}
@@ -328,6 +339,7 @@ func C12(r *core.Run) {
 		launch(stress, 3, 1)
 		launch(append(append([]c12Case{}, batch...), noread...), 2, 4)
 		launch(bodies, 2, 4)
+		launch(stall, 2, 2)
 	}
 	wg.Wait()
 
@@ -417,6 +429,12 @@ func C12(r *core.Run) {
 		case "batch":
 			r.Case("data-batch:[" + strings.Join(c.Ops, ",") + "]->" + res.Statuses)
 			r.Add("mixed_id_data_batches", 1)
+		case "stall":
+			r.Case(fmt.Sprintf("stalled-backend:%s|%s", strings.Join(c.Ops, ","), res.Statuses))
+			r.Add("stalled_backend_scripts", 1)
+			if res.Forced {
+				r.Add("stalled_backend_scripts_with_a_call_parked_until_the_drop", 1)
+			}
 		case "body":
 			r.Case(fmt.Sprintf("body:%s|%s|sessions=%s->%s", c.Endpoint, c.Label, c.State, res.Statuses))
 			r.Add("odd_body_calls", 1)
@@ -463,7 +481,7 @@ func C12(r *core.Run) {
 	r.Set("hook_hits", hits)
 	r.Set("max_case_duration_ms", maxMs)
 	r.JudgeRaces(core.ParseRaceLogs(filepath.Join(r.WorkDir, "race-")))
-	minCases := exhaustive + settled + len(forced) + len(stress) + len(batch) + len(noread) + len(bodies) - 50
+	minCases := exhaustive + settled + len(forced) + len(stress) + len(batch) + len(noread) + len(bodies) + len(stall) - 50
 	if r.OnlyCase >= 0 {
 		minCases = 1
 	}
@@ -480,6 +498,8 @@ func c12Describe(c c12Case) string {
 		return fmt.Sprintf("seed %d, %d goroutines", c.Seed, c.G)
 	case "batch":
 		return "data batch [" + strings.Join(c.Ops, ",") + "] (A,B open; C closed by client; D closed by backend; U unknown)"
+	case "stall":
+		return "stalled backend script [" + strings.Join(c.Ops, " ") + "] (B 12 MiB message parks the writer, sN small data calls, c/d close/data not awaited, X backend drops the TCP connection)"
 	case "body":
 		return fmt.Sprintf("%s with body %q [%s], sessions: %s", c.Endpoint, c.Label, core.Trunc(c12Unb64(c.B64), 80), c.State)
 	case "noread":
